@@ -42,6 +42,8 @@ func main() {
 	verif := flag.String("verif", "", "verif dir (default: parent of the binary's dir, or /verif)")
 	replay := flag.String("replay", "", "replay file written by a previous run")
 	list := flag.Bool("list", false, "list properties")
+	noControls := flag.Bool("no-controls", false, "developer aid: skip the positive controls (quick tier)")
+	evDir := flag.String("evidence-dir", "", "developer aid: write evidence and replay files below this directory instead of <verif>/evidence")
 	debugFn := flag.String("debug-exprs", "", "developer aid: print the canonical expressions of all calls/returns in the named function (e.g. cmd:CopyCommand.copyOneFile)")
 	flag.Parse()
 	if *debugFn != "" {
@@ -83,8 +85,13 @@ func main() {
 		fmt.Fprintf(os.Stderr, "unknown property %q\n", *prop)
 		os.Exit(2)
 	}
+	skipControls = *noControls
+	evidenceDirOverride = *evDir
 	os.Exit(runProperty(def, *tier, *repo, *verif, seed, true))
 }
+
+var skipControls bool
+var evidenceDirOverride string
 
 func runProperty(def *propertyDef, tier, repo, verif string, seed int, writeEvidence bool) (code int) {
 	start := time.Now()
@@ -120,7 +127,9 @@ func runProperty(def *propertyDef, tier, repo, verif string, seed int, writeEvid
 	} else {
 		// quick tier: the positive controls of this property (rules must still fire)
 		r.Rule("G.control", "positive controls: each control variant (one instance broken in a scratch copy of the current tree) must be reported by its expected rule; a miss marks the rule dead", 0)
-		runCorpus(def, r, repo, verif, &st, true)
+		if !skipControls {
+			runCorpus(def, r, repo, verif, &st, true)
+		}
 	}
 	return r.finish(verif, seed, start, st, def.Explanation, append(def.Assumptions, commonAssumptions...))
 }
